@@ -760,6 +760,10 @@ mod os {
                     | (error_buf[1] as u32) << 8
                     | (error_buf[2] as u32) << 16
                     | (error_buf[3] as u32) << 24;
+                // The child has failed to exec and is exiting.  Reap it here
+                // even if detached: the caller gets no Popen to wait on, so
+                // nobody else could ever collect the zombie.
+                self.os_wait().ok();
                 Err(PopenError::from(io::Error::from_raw_os_error(
                     error_code as i32,
                 )))
